@@ -275,7 +275,7 @@ theorem without_exp_check_zero_exp_never_expires :
     = .granted "alice" := by
   intro now hnow
   have h1 : ¬ now < 900 := by omega
-  simp [tokenDecision, authenticationCredential, fields, fieldsAux, isSpace, toLowerC, credentialIsSecure, sigSecure,
+  simp [tokenDecision, authenticationCredential, fields, fieldsAux, spaceLen, isSpace, toLowerC, credentialIsSecure, sigSecure,
     sigCountOK, keyLoop, validate, timeSet, bestPractices, claimPresent, Facts.C04.policy, h1]
 
 /-! ### wiring, configuration and the authorized_keys file (coverage audit) -/
